@@ -184,6 +184,11 @@ def _child(mod, spec, out_path, timeout, idx=0):
         if idx % 3 == 1 and os.environ.get("VERIF_NO_DEBUG_LOGGING") != "1":
             _silent_debug_logging()
             acc.count("shards_run_with_library_debug_logging_on")
+        lib_ = sys.modules.get("vf.lib")
+        if lib_ is not None and os.environ.get("VERIF_HOSTILE", "1") != "0":
+            for k_ in lib_.HOSTILE:
+                lib_.HOSTILE[k_] = True
+            acc.count("shards_run_with_hostile_decoder_neighbourhood")
         try:
             mod.run_shard(spec, acc)
         except BaseException as e:  # harness failure, not a property verdict
@@ -193,6 +198,10 @@ def _child(mod, spec, out_path, timeout, idx=0):
                 os._exit(0)
             acc.inconclusive_because(f"shard {spec.get('name', spec)} crashed: {type(e).__name__}: {e}")
             acc.note(traceback.format_exc()[-1500:])
+        if lib_ is not None:
+            for k_, v_ in lib_.HOSTILE_STATS.items():
+                if v_:
+                    acc.count("hostile_" + k_, v_)
         sg = sys.modules.get("vf.simgw")
         for k_ in sorted(getattr(sg, "LOSS_CLASSES_SEEN", {})):
             acc.cover("link_loss_error_classes", k_)
